@@ -11,6 +11,8 @@ import (
 	"errors"
 	"net"
 
+	"golang.org/x/net/netutil"
+
 	"github.com/xakep666/ps3netsrv-go/internal/handler"
 	"github.com/xakep666/ps3netsrv-go/internal/verifrt"
 	"github.com/xakep666/ps3netsrv-go/internal/verifstub"
@@ -72,6 +74,7 @@ var verifWiring struct {
 	served   net.Listener
 	srv      *server.Server[handler.State]
 	listened string
+	real     bool // Serve harness: only the listening socket is a stub, everything above it is the real code
 }
 
 func verifStub_main_listenTCP(addr string) (net.Listener, error) {
@@ -80,11 +83,17 @@ func verifStub_main_listenTCP(addr string) (net.Listener, error) {
 }
 
 func verifStub_netutil_LimitListener(l net.Listener, n int) net.Listener {
+	if verifWiring.real {
+		return netutil.LimitListener(l, n)
+	}
 	verifWiring.limit = &verifLimitListener{Listener: l, n: n}
 	return verifWiring.limit
 }
 
 func verifStub_server_Server_Serve(s *server.Server[handler.State], ln net.Listener) error {
+	if verifWiring.real {
+		return s.Serve(ln)
+	}
 	verifWiring.srv, verifWiring.served = s, ln
 	return nil
 }
@@ -107,7 +116,12 @@ func VerifC15_Wiring() {
 	verifrt.Assert(err == nil && verifWiring.served != nil && verifWiring.listened == "127.0.0.1:38008", "wiring.serves-the-listen-address")
 	h, isH := verifWiring.srv.Handler.(*handler.Handler)
 	verifrt.Assert(isH && h.AllowWrite == sapp.AllowWrite && verifWiring.srv.ReadTimeout == sapp.ReadTimeout, "wiring.settings-reach-the-server")
-	verifrt.Assert((verifWiring.limit != nil) == useLimit, "wiring.limit-only-when-set")
+	if useLimit && verifWiring.limit == nil {
+		// the limit is not built with netutil.LimitListener: this harness sees the limit only through that call
+		// (VerifC15_Serve drives the real accept path whatever it is made of)
+		verifrt.Inconclusive("client limit is not realised with netutil.LimitListener; the wiring harness cannot observe it")
+	}
+	verifrt.Assert(useLimit || verifWiring.limit == nil, "wiring.no-limit-unless-set")
 	if useLimit {
 		verifrt.Assert(verifWiring.limit.n == sapp.MaxClients, "wiring.limit-value")
 	}
@@ -125,5 +139,58 @@ func VerifC15_Wiring() {
 		verifrt.Assert(verifWiring.limit.acquired-verifWiring.limit.released == 1, "wiring.one-slot-in-use")
 		_ = c.Close()
 		verifrt.Assert(verifWiring.limit.acquired == verifWiring.limit.released, "wiring.capacity-recovers")
+	}
+}
+
+// C15 (capacity recovers, rejected peers untouched) through the REAL accept path: serverApp.server() with the real
+// netutil.LimitListener (channel semaphore), the real filter listener, the real Server.Serve loop and the real
+// serveConn; only the listening socket is a stub that hands out a fixed arrival sequence and then fails.
+// Goroutines follow the engine's cooperative schedule (engine/sched.go): each `go serveConn` is queued and runs to
+// completion when the accept loop blocks on the semaphore or has returned. Under that schedule:
+//   - the accept loop never blocks for good (every ended and every rejected connection gives its slot back:
+//     a lost slot shows up as a DEADLOCK after N such arrivals - the arrival sequence is longer than 2N);
+//   - a peer outside the whitelist is closed without a single read or response byte;
+//   - every other peer is served (the server reads from it) and closed at its end.
+// Not decided here: "at most N at any moment" under true interleavings (one connection runs at a time).
+func VerifC15_Serve() {
+	verifrt.NativeUnsupported("listenTCP is replaced by an engine-injected stub; goroutines follow the engine's cooperative schedule")
+	verifrt.Goroutines()
+	useLimit, useWhitelist := verifrt.Bool("maxclients.set"), verifrt.Bool("whitelist.set")
+	n := 1 + verifrt.Choice("maxclients", 2)
+	k := verifrt.Bound("C15.serve.arrivals", 5, 6)
+	var conns []*verifstub.Conn
+	var inside []bool
+	for i := 0; i < k; i++ {
+		in := verifrt.Bool("arrival.whitelisted")
+		ip := net.IP{10, 0, 0, byte(1 + i)}
+		if in {
+			ip = net.IP{127, 0, 0, byte(1 + i)}
+		}
+		// an unknown opcode: the server reads the command and ends the connection without answering
+		conns = append(conns, &verifstub.Conn{Remote: &net.TCPAddr{IP: ip, Port: 4000 + i}, In: []byte{0x77, 0x77, 0, 0, 0, 0, 0, 0, 0, 0, 0, 0, 0, 0, 0, 0}})
+		inside = append(inside, in)
+	}
+	verifWiring.raw = &verifRawListener{conns: conns}
+	verifWiring.limit, verifWiring.served, verifWiring.srv = nil, nil, nil
+	verifWiring.real = true
+	sapp := &serverApp{ListenAddr: "127.0.0.1:38008", Root: "/srv/root", ReadTimeout: 7, BufferSize: 4}
+	if useLimit {
+		sapp.MaxClients = n
+	}
+	if useWhitelist {
+		sapp.ClientWhitelist = iprange.New(net.IP{127, 0, 0, 1}, net.IP{127, 0, 0, 254})
+	}
+	err := sapp.server() // returns when the socket fails - unless the accept loop hangs (reported as a deadlock)
+	verifWiring.real = false
+	verifrt.Assert(err != nil, "serve.ends-with-the-socket-error")
+	verifrt.Assert(verifWiring.raw.pos == k, "serve.every-arrival-accepted")
+	verifrt.Yield() // connections still being served finish
+	for i, c := range conns {
+		if useWhitelist && !inside[i] {
+			verifrt.Assert(c.Closes >= 1 && len(c.ReadsAfter) == 0 && len(c.Out) == 0, "serve.outsider-closed-untouched")
+		} else {
+			verifrt.Assert(len(c.ReadsAfter) >= 1, "serve.peer-served")
+			verifrt.Assert(c.Closes >= 1, "serve.connection-closed-at-end")
+		}
 	}
 }
